@@ -320,12 +320,31 @@ class Facts:
         self.config = config
         self.repo = repo or repo_root()
         self.dir = facts_dir(config, self.repo)
+        self.renames = []
+        self._load(None)
+        ren = self._detect_renames()
+        if ren:
+            # analyse the tree under the names the rules know: every occurrence of a renamed function's path is rewritten
+            import re
+            pats = [(re.compile(re.escape(new) + r'(?![A-Za-z0-9_])'), old) for old, new in ren]
+
+            def tr(text):
+                for pat, old in pats:
+                    text = pat.sub(old.replace('\\', '\\\\'), text)
+                return text
+            self._load(tr)
+            self.renames = ren
+
+    def _load(self, transform):
         self.crates = {}
         for c in LIB_CRATES:
             fp = os.path.join(self.dir, c + '.json')
             if os.path.exists(fp):
                 with open(fp) as f:
-                    self.crates[c] = json.load(f)
+                    text = f.read()
+                if transform:
+                    text = transform(text)
+                self.crates[c] = json.loads(text)
         self.bodies = {}
         self.mir = {}
         self.fns = {}
@@ -352,6 +371,42 @@ class Facts:
                 self.aliases[a['path']] = a
             for k in d['consts']:
                 self.consts[k['def']] = k
+
+    def _detect_renames(self):
+        """[(old def path, new def path)]: a private function that was renamed or moved keeps its rules (allow/anchors.json)"""
+        fp = os.path.join(VERIF, 'allow', 'anchors.json')
+        if not os.path.exists(fp):
+            return []
+        try:
+            base = json.load(open(fp))['fns']
+        except (ValueError, KeyError):
+            return []
+        sig = lambda v: (tuple(v.get('inputs') or []), v.get('output'), tuple(v.get('generics') or []))
+        unknown = {d: v for d, v in self.fns.items() if d not in base and '::test' not in d}
+        if not unknown:
+            return []
+        by_sig = {}
+        for d, v in unknown.items():
+            by_sig.setdefault(sig(v), []).append(d)
+        out = []
+        taken = set()
+        for old, v in sorted(base.items()):
+            if old in self.fns or old.split('::')[0].lstrip('<') not in self.crates:
+                continue
+            cands = [c for c in by_sig.get(sig(v), []) if c not in taken]
+            mod, name = old.rsplit('::', 1)
+            crate = old.split('::')[0]
+            same_mod = [c for c in cands if c.rsplit('::', 1)[0] == mod]
+            same_name = [c for c in cands if c.rsplit('::', 1)[1] == name and c.split('::')[0] == crate]
+            pick = same_mod if len(same_mod) == 1 else same_name if len(same_name) == 1 else []
+            if len(pick) != 1:
+                continue
+            # the old module must still be compiled (otherwise the function is gated out, not renamed)
+            if not same_name and not any(d.rsplit('::', 1)[0] == mod for d in self.fns if d in base):
+                continue
+            out.append((old, pick[0]))
+            taken.add(pick[0])
+        return out
 
     def n_bodies(self):
         return len(self.bodies)
@@ -589,6 +644,10 @@ def run_property(prop, tier, rule_fn, configs_quick=('default',), configs_thorou
         rep.cur_config = cfg
         try:
             facts = Facts(cfg)
+            for old, new in facts.renames:
+                note = f'anchor `{old}` is gone; the only new function with its signature, `{new}`, is analysed in its place (allow/anchors.json).'
+                if note not in rep.notes:
+                    rep.notes.append(note)
             rep.configs.append(cfg)
             rep.bodies_analysed += facts.n_bodies()
             rule_fn(rep, facts)
